@@ -57,7 +57,7 @@ COMPONENTS_STUB = ["zarr sync()/loop thread/thread pool -> SimLoop", "LocalStore
 EXPECTED_PROBES = ["split_at_zero", "double_interrupt", "clone_then_save", "clone_fallback_path_taken",
                    "plateau_scheduler_reduced_lr", "dataset_optimizer_present", "reload_zip",
                    "reload_dir", "opt_sgd", "opt_adam", "opt_adamw", "sched_cyclic", "sched_linear",
-                   "sched_exp", "obj_potential", "obj_pure_phase", "modes2", "slices2", "sched_cyclic_momentum", "sched_plateau_with_counters", "opt_extra_betas", "opt_extra_amsgrad", "opt_extra_weight_decay", "opt_extra_nesterov", "long_first_segment",
+                   "sched_exp", "obj_potential", "obj_pure_phase", "modes2", "slices2", "sched_cyclic_momentum", "sched_plateau_with_counters", "opt_extra_betas", "opt_extra_amsgrad", "opt_extra_weight_decay", "opt_extra_nesterov", "long_first_segment", "reload_in_another_interpreter",
                    "clone_independence_checked", "clone_fallback_natural",
                    "save_then_continue_same_object", "reset_after_interruption"]
 RTOL = 1e-5   # candidate threshold; a candidate is a violation only beyond NOISE_FACTOR x measured drift
@@ -224,7 +224,10 @@ def gen(rng: Rng, tier, i):
             ops.append({"op": k})
     if ops[-1]["op"] != "recon":
         ops.append({"op": "recon", "n": rng.pick([1, 2, 3])})
-    return {"cfg": cfg, "ops": ops, "env": serio.gen_env(rng.fork("env"))}
+    return {"cfg": cfg, "ops": ops, "env": serio.gen_env(rng.fork("env")),
+            # the first reload is repeated in a FRESH interpreter with another string-hash salt, which
+            # then continues for two iterations: must equal the same continuation in this process
+            "other_interpreter": rng.fork("interp").pick([None] * 14 + [1, 777])}
 
 
 def _opt_params(cfg):
@@ -276,6 +279,66 @@ def _state(pt):
             "iter_lrs": {k: np.asarray(v, float).copy() for k, v in pt.iter_lrs.items()},
             "constraints": copy.deepcopy(pt.constraints), "obj": np.array(pt.obj, copy=True),
             "probe": np.array(pt.probe, copy=True)}
+
+
+def _summary(pt):
+    st = _state(pt)
+    return {"num_iters": st["num_iters"], "iter_losses": st["iter_losses"].tolist(),
+            "val_losses": st["val_losses"].tolist(), "val_split": list(st["val_split"]),
+            "iter_lrs": {k: v.tolist() for k, v in st["iter_lrs"].items()},
+            "obj": np.stack([st["obj"].real, st["obj"].imag]).astype(float).tolist(),
+            "probe": np.stack([st["probe"].real, st["probe"].imag]).astype(float).tolist()}
+
+
+def _continue_kw(cfg):
+    return {"num_iters": 2, "loss_type": cfg["loss"], "autograd": cfg.get("autograd", True)}
+
+
+def child_reload_and_continue(req):
+    """Executed in a fresh interpreter (python -m qsim.c05child)."""
+    P = _ctx["m"]["Ptychography"]
+    env2 = dict(req["env"], sched_seed=req["env"].get("sched_seed", 0) + 3)
+    with serio.SerEnv(env2) as E:
+        pt, exc, _ = E.call(lambda: P.from_file(req["path"]))
+        if exc is not None:
+            return {"error": repr(exc)}
+        s0 = _summary(pt)
+        pt.reconstruct(**_continue_kw(req["cfg"]))
+        return {"loaded": s0, "continued": _summary(pt)}
+
+
+def _other_interpreter(req, hashseed):
+    import json
+    import subprocess
+    import sys
+
+    from .. import core
+
+    env = dict(os.environ, PYTHONHASHSEED=str(hashseed), VERIF_REPO=core.REPO,
+               PYTHONPATH=core.VERIF_DIR + os.pathsep + os.environ.get("PYTHONPATH", ""))
+    out = subprocess.run([sys.executable, "-m", "qsim.c05child"], input=json.dumps(req), text=True,
+                         capture_output=True, env=env, cwd=core.VERIF_DIR, timeout=900)
+    lines = [ln for ln in out.stdout.splitlines() if ln.startswith("RESULT ")]
+    if out.returncode != 0 or not lines:
+        raise HarnessError(f"other-interpreter reload failed (rc {out.returncode}): {out.stderr[-400:]}")
+    return json.loads(lines[-1][7:])
+
+
+def _summary_diff(a, b, rtol=1e-6):
+    out = []
+    if a["num_iters"] != b["num_iters"]:
+        out.append(f"num_iters {a['num_iters']} vs {b['num_iters']}")
+    if a["val_split"] != b["val_split"]:
+        out.append("val_split")
+    for k in ("iter_losses", "val_losses", "obj", "probe"):
+        e = _rel(np.asarray(a[k], float), np.asarray(b[k], float))
+        if e > rtol:
+            out.append(f"{k} (rel.dev {e:.3g})")
+    if set(a["iter_lrs"]) != set(b["iter_lrs"]) or any(
+            _rel(np.asarray(a["iter_lrs"][k], float), np.asarray(b["iter_lrs"][k], float)) > rtol
+            for k in a["iter_lrs"] if k in b["iter_lrs"]):
+        out.append("iter_lrs")
+    return out
 
 
 def _cmp_exact(old, new):
@@ -444,6 +507,7 @@ def run(plan):
     iters_after_interrupt = 0
     last_was_interrupt = False
     after_clone = False
+    did_other = [False]
     kinds = []
     diverged = False
     with serio.SerEnv(plan["env"]) as E:
@@ -585,6 +649,32 @@ def run(plan):
                              f"op_raised:from_file:{type(exc).__name__}")
                         break
                     R = new
+                    if plan.get("other_interpreter") and not did_other[0]:
+                        did_other[0] = True
+                        bump(probes, "reload_in_another_interpreter")
+                        here, exc, _ = E.call(lambda: P.from_file(pth))
+                        if exc is None:
+                            s0 = _summary(here)
+                            here.reconstruct(**_continue_kw(cfg))
+                            s1 = _summary(here)
+                            del here
+                            o = _other_interpreter({"cfg": cfg, "env": plan["env"],
+                                                    "path": os.path.join(E.work, name)},
+                                                   plan["other_interpreter"])
+                            if "error" in o:
+                                viol("op_raised", f"{tag}: from_file in a fresh interpreter raised "
+                                     f"{o['error']}", "op_raised:from_file:other_interpreter")
+                            else:
+                                dd = _summary_diff(s0, o["loaded"], rtol=0.0) or [
+                                    # two processes differ by float round-off (3e-6 seen with the
+                                    # poisson loss): behavioural dependence on the session is O(1e-2)
+                                    "continued:" + x for x in _summary_diff(s1, o["continued"], rtol=1e-4)]
+                                if dd:
+                                    viol("reload_depends_on_interpreter_session",
+                                         f"{tag}: the same file loaded (and continued for 2 iterations) "
+                                         f"in a fresh interpreter (PYTHONHASHSEED="
+                                         f"{plan['other_interpreter']}) differs from this process in {dd}",
+                                         "reload_depends_on_interpreter_session:" + dd[0].split(" ")[0])
                 else:
                     if k == "clone_fallback":
                         _CopyProxy.armed = True
